@@ -83,6 +83,9 @@ def from_json(val, tyt):
     if k == "adt":
         if isinstance(val, str):
             return mk_enum(tyt["path"], val)
+        if isinstance(val, dict) and "enum" in val:
+            return ("adt", tyt["path"], val.get("vi", 0), val["enum"],
+                    tuple(from_json(fl.get("val"), fl.get("tyt")) for fl in val.get("fields", [])))
         if isinstance(val, dict) and "struct" in val and ADTS is not None:
             a = ADTS.get(tyt["path"])
             if a and a.get("kind") == "Struct" and len(a["variants"]) == 1 and not a.get("generic"):
